@@ -49,6 +49,7 @@ def ref_entropy(X, k, metric="euclidean", detail=False):
     N, d = X.shape
     H = math.log(N) + (d / 2) * math.log(math.pi) - gammaln(1 + d / 2)
     logs, corrs, margins, gaps = [], [], [], []
+    smallest = math.inf          # smallest quantity the implementation compares with its ABSOLUTE 1e-12 guards (k-th neighbour distance, spanned singular values)
     for i in range(N):
         dist = _dist(X, i, metric)
         order = sorted((j for j in range(N) if j != i), key=lambda j: (dist[j], j))
@@ -57,12 +58,15 @@ def ref_entropy(X, k, metric="euclidean", detail=False):
             gaps.append(abs(dist[order[k]] - dist[order[k - 1]]) / max(dist[order[k]], 1e-300))
         rho = math.sqrt(float(((X[i] - X[nb[-1]]) ** 2).sum()))
         logs.append(math.log(rho) if rho > 1e-12 else -12.0)
+        smallest = min(smallest, rho)
         pts = X[[i] + nb] - X[i]          # differences first (exact for nearby points): the centred neighbourhood does not depend on where the sample sits
         Yc = pts - pts.mean(axis=0)
         svals, V = jacobi_svd(Yc)
         r = min(k + 1, d)
         lam = svals[:r] ** 2
         valid = svals[:r] > 1e-9 * max(svals[0], 1e-300)  # directions actually spanned by the neighbourhood (k+1 centred points have rank <= k)
+        if valid.any():
+            smallest = min(smallest, float(svals[:r][valid].min()))
         cnt = 0
         for z in X[nb] - X[i]:
             proj = (z @ V[:, :r])[valid]
@@ -73,11 +77,13 @@ def ref_entropy(X, k, metric="euclidean", detail=False):
         sv = svals[:r]
         if sv[0] > 1e-12:
             for l in range(min(d, r)):
-                if valid[l] and sv[l] > 1e-12:
+                if valid[l] and sv[l] > 1e-12 * sv[0]:      # (the implementation's rank test, relative to the largest singular value)
                     ratio = sv[l] / sv[0]
                     corr += math.log(ratio) if ratio > 1e-12 else -12.0
         corrs.append(corr)
     H += d / N * sum(logs) + float(np.mean(corrs))
+    if detail == 2:
+        return H, (min(margins) if margins else 1.0), (min(gaps) if gaps else 1.0), smallest
     if detail:
         return H, (min(margins) if margins else 1.0), (min(gaps) if gaps else 1.0)
     return H
